@@ -324,13 +324,14 @@ def fam_c04_deep(seed, n):
     return out
 
 
-def fam_c04_delete():
+def fam_c04_delete(step=1):
     """delete("name") unbinds the name in the CURRENT block only, delete("name", true) the nearest binding: inside every block kind, with the
     name bound outside, inside, or both; reads after every block."""
     out = []
     acts = {"del": lambda: [Delete(S("a"))], "delg": lambda: [Delete(S("a"), B(True))], "vardel": lambda: [Var("a", I(7)), rd("a"), Delete(S("a"))],
             "vardelg": lambda: [Var("a", I(7)), rd("a"), Delete(S("a"), B(True))], "delgdelg": lambda: [Var("a", I(7)), Delete(S("a"), B(True)), rd("a"), Delete(S("a"), B(True))]}
     pres = {"set": [Let("a", I(1))], "none": []}
+    nseen = [0]
     for d in (1, 2):
         for combo in itertools.product(SCOPE_WRAPS, repeat=d):
             if d == 2 and (combo[0] in (s_cfor, s_while) and combo[1] is combo[0]):
@@ -345,6 +346,9 @@ def fam_c04_delete():
                         if d == 2:
                             body = ([Var("a", I(5))] if a2 == "var" else []) + [rd("a")] + combo[1](body, c) + [rd("a"), rd("b")]
                         prog = pres[pre] + combo[0](body, c) + [rd("a"), rd("b"), Ret(I(0))]
+                        nseen[0] += 1
+                        if d == 2 and nseen[0] % step:
+                            continue                       # (quick tier: every step-th of the depth-2 nestings)
                         out.append({"id": "c04-del-%s-%s-%s-%s" % ("_".join(w.__name__[2:] for w in combo), pre, a1, a2), "prog": prog})
     def add(n, prog): out.append({"id": "c04-del-" + n, "prog": prog})
     add("param", [FnStmt("f", ["a"], [Delete(S("a")), Ret(Nilco(Id("a"), S("undef")))]), P(Call("f", I(4))), Let("a", I(1)), P(Call("f", I(4))), rd("a"), Ret(I(0))])
